@@ -11,7 +11,9 @@ NA = {}
 def load():
     sys.path.insert(0, os.path.join(VERIF, "lib"))
     import manifest_table as t
-    return t.CHECKS, t.NA, t.HOOK_COMMITS
+    reg = getattr(t, 'REGISTERED', None)
+    checks = {k: v for k, v in t.CHECKS.items() if reg is None or k in reg}
+    return checks, t.NA, t.HOOK_COMMITS
 
 def main():
     checks, na, hook_commits = load()
